@@ -24,6 +24,7 @@ from ..core import cz, clist, czlist
 ID = "C17"
 THEOREMS = ["C17_service_order_partial", "C17_answered_at_most_once_partial", "C17_answer_is_own_partial",
             "C17_no_loss_partial", "C17_quiescent_all_answered_partial", "C17_fifo_progress_partial",
+            "C17_fifo_progress_tight_partial", "C17_in_batch_next_completion_partial", "C17_in_queue_second_completion_partial",
             "C17_batch_order_fifo_partial", "C17_bytes_roundtrip"]
 MODEL_TARGETS = ["model/Server.vo", "model/Harness.vo"]
 TRUSTED_BASE = [
@@ -300,6 +301,18 @@ def run_schedule(arrivals, base_lats, model_kind="hash", transformer=None):
     return obs
 
 
+def n_blocked(obs):
+    """arrivals that found the queue full (80 requests arrived and not yet taken into any model call)"""
+    n = arrived = 0
+    for e in obs["events"]:
+        if e[0] == "A":
+            taken = sum(len(rows) for (s, rows) in obs["batches"] if s <= e[2])
+            if arrived - taken >= 80:
+                n += 1
+            arrived += 1
+    return n
+
+
 def min_gap(obs):
     """smallest distance between two consecutive events that are not cause and effect (latency-0 completions)"""
     ev = obs["events"]
@@ -436,7 +449,7 @@ def gen_schedule(rng, kind, max_req):
             burst(rng.choice([7, 8, 8, 8, 9, 16]))
             pause()
     elif kind == "backpressure":
-        burst(rng.randint(90, max(90, min(200, max_req))))
+        burst(rng.randint(90, max(90, max_req)))
         pause()
         trickle(rng.randint(0, 6))
     else:
@@ -474,7 +487,7 @@ def gen_schedule(rng, kind, max_req):
     return {"kind": kind, "arrivals": [[i, fixed[i], pos[i]] for i in range(len(fixed))], "lats": lats}
 
 
-def schedule_stream(run, n, max_req, with_backpressure):
+def schedule_stream(run, n, max_req, with_backpressure, max_burst=200):
     rng = run.rng
     fixed_first = ["single", "threshold8", "burst", "trickle", "mixed"] + (["backpressure"] if with_backpressure else [])
     for k in range(n):
@@ -484,7 +497,7 @@ def schedule_stream(run, n, max_req, with_backpressure):
             r = rng.random()
             kind = ("mixed" if r < 0.35 else "trickle" if r < 0.55 else "burst" if r < 0.72 else "threshold8" if r < 0.87
                     else "backpressure" if (r < 0.95 and with_backpressure) else "single" if r < 0.97 else "mixed")
-        yield gen_schedule(rng, kind, max_req if kind != "backpressure" else 200)
+        yield gen_schedule(rng, kind, max_req if kind != "backpressure" else max_burst)
 
 
 # --------------------------------------------------------------------------
@@ -698,12 +711,12 @@ def correspondence(run):
     torch.set_num_threads(1)
     quick = run.quick
     t_start = time.time()
-    n_sched = 300 if quick else 2500
-    max_req = 60 if quick else 400
-    cs = core.Cases(ID, "sched", HEADER, CTYPE, CHECK, show=SHOW, shard=20 if quick else 40)
+    n_sched = 300 if quick else 2000
+    max_req = 60 if quick else 150
+    cs = core.Cases(ID, "sched", HEADER, CTYPE, CHECK, show=SHOW, shard=20 if quick else 15)
     scheds, dist, nontriv, n_req, n_batches, gaps, seen_keys = [], {}, 0, 0, 0, [], set()
     samples = []
-    for sched in schedule_stream(run, n_sched, max_req, with_backpressure=True):
+    for sched in schedule_stream(run, n_sched, max_req, with_backpressure=True, max_burst=200 if quick else 400):
         obs = run_schedule(sched["arrivals"], sched["lats"])
         k = sched_key(sched)
         dist[sched["kind"]] = dist.get(sched["kind"], 0) + 1
@@ -737,8 +750,9 @@ def correspondence(run):
     tie_ok = (not gaps) or min(gaps) >= TIE_GUARD
     run.oblige("tie-guard: no two causally unrelated events within 50 us in any generated schedule", tie_ok or bool(failing) or oracle_hits > 0,
                f"min gap {min(gaps) if gaps else None}")
-    n_big = sum(1 for s, o, _ in scheds if any(len(r) > 80 for _, r in o["batches"]) or len(s["arrivals"]) > 88)
-    dist.update({"requests": n_req, "model_calls": n_batches, "schedules_with_blocked_putters": n_big,
+    nb = [n_blocked(o) for _, o, _ in scheds]
+    dist.update({"requests": n_req, "model_calls": n_batches, "schedules_with_blocked_putters": sum(1 for x in nb if x),
+                 "schedules_with_more_than_80_blocked": sum(1 for x in nb if x > 80), "arrivals_that_blocked": sum(nb),
                  "min_event_gap_us": min(gaps) if gaps else None,
                  "max_batch": max((len(r) for _, o, _ in scheds for _, r in o["batches"]), default=0)})
     run.count(len(scheds), nontriv,
